@@ -68,12 +68,39 @@ def liveness(rep, lab, st, trace, inst, public_attrs, output_attrs, extra_inputs
                    key="C18.a|attr|%s" % op.attr)
 
 
+def element_type(listexpr):
+    """'int' | 'str' | None: type of the elements of the index list (a comprehension over the glob listing)"""
+    if isinstance(listexpr, (ast.ListComp, ast.GeneratorExp, ast.SetComp)):
+        e = listexpr.elt
+    elif isinstance(listexpr, ast.Call) and ast.unparse(listexpr.func) in ("list", "sorted", "tuple") and listexpr.args:
+        return element_type(listexpr.args[0])
+    elif isinstance(listexpr, ast.Call) and ast.unparse(listexpr.func) == "map" and len(listexpr.args) == 2:
+        return "int" if ast.unparse(listexpr.args[0]) == "int" else None
+    else:
+        return None
+    if isinstance(e, ast.Call) and ast.unparse(e.func) == "int":
+        return "int"
+    if isinstance(e, ast.Call) and ast.unparse(e.func) == "str":
+        return "str"
+    if isinstance(e, ast.Attribute) and e.attr in ("stem", "name", "suffix"):
+        return "str"
+    if isinstance(e, ast.Subscript) and isinstance(e.value, ast.Call) and isinstance(e.value.func, ast.Attribute) \
+            and e.value.func.attr in ("split", "rsplit", "partition", "rpartition"):
+        return "str"
+    return None
+
+
 def classify_latest(node):
     """('ok' | 'bad' | 'unknown', name of the index list)"""
     u = ast.unparse(node).replace(" ", "")
     def name_of(n):
         return n.id if isinstance(n, ast.Name) else None
+    if isinstance(node, ast.Call) and ast.unparse(node.func) == "int" and len(node.args) == 1 and not node.keywords:
+        return classify_latest(node.args[0])       # conversion of the chosen element: the choice is made inside
     if isinstance(node, ast.Call) and ast.unparse(node.func) in ("max", "np.max", "np.amax") and node.args:
+        if any(k.arg == "key" for k in node.keywords):
+            k = next(k for k in node.keywords if k.arg == "key")
+            return ("ok:key=int", name_of(node.args[0])) if ast.unparse(k.value) == "int" and name_of(node.args[0]) else ("unknown", None)
         return ("ok", name_of(node.args[0])) if name_of(node.args[0]) else ("unknown", None)
     if isinstance(node, ast.Call) and ast.unparse(node.func) in ("min", "np.min", "np.amin") and node.args:
         return ("bad", name_of(node.args[0]))
@@ -105,13 +132,20 @@ def restart_helper(S, rep):
     verdict, idx_src = classify_latest(latest)
     if verdict == "unknown":
         raise Unsupported("restart_simulation: unrecognised way of choosing the checkpoint index: %s" % ast.unparse(latest))
-    rep.ob("C18.b", "latest checkpoint index is the largest", verdict == "ok", "the checkpoint index is computed as %s" % ast.unparse(latest),
-           key="C18.b|latest|%s" % ast.unparse(latest))
-    ok = verdict == "ok"
-    # the indices come from the numeric suffix of the sopht_*.h5 names
+    # the comparison must be numeric: elements of the list are ints (or the maximum is taken with key=int)
     src = ff.single_assignment(idx_src) if idx_src else None
+    et = element_type(src) if src is not None else None
+    if et is None:
+        raise Unsupported("restart_simulation: cannot tell the element type of %s = %s" % (idx_src, ast.unparse(src) if src is not None else None))
+    numeric = et == "int" or verdict == "ok:key=int"
+    rep.ob("C18.b", "latest checkpoint index is the largest", verdict.startswith("ok") and numeric,
+           "the checkpoint index is computed as %s over %s elements%s" % (ast.unparse(latest), et, "" if numeric else
+               ": the largest *string* is not the largest index once the indices have different digit counts (sopht_9999 vs sopht_10000)"),
+           key="C18.b|latest|%s|%s" % (ast.unparse(latest), et))
+    ok = verdict.startswith("ok") and numeric
+    # the indices come from the numeric suffix of the sopht_*.h5 names
     s = ast.unparse(src).replace('"', "'") if src is not None else ""
-    if "glob(" not in s or "int(" not in s:
+    if "glob(" not in s:
         raise Unsupported("restart_simulation: unrecognised way of listing checkpoint indices: %s" % s)
     ok2 = "'sopht_*.h5'" in s and ("split('_')[-1]" in s or "rsplit('_', 1)[-1]" in s or "rsplit('_', 1)[1]" in s)
     rep.ob("C18.b", "indices parsed from sopht_*.h5 names", ok2, s, key="C18.b|indices|%s" % s[:80])
